@@ -258,7 +258,8 @@ func (r *Route) goodInfo() {
 
 	str := MethodsString()
 	for _, method := range r.methods {
-		if strings.Index(","+str, ","+method) == -1 {
+		// must equal one whole name of the list. "GE", "DEL", "GET,POST" are invalid
+		if strings.IndexByte(method, ',') != -1 || strings.Index(","+str+",", ","+method+",") == -1 {
 			goutil.Panicf("invalid method name '%s', must in: %s", method, str)
 		}
 	}
